@@ -30,19 +30,28 @@ deriving DecidableEq, Repr, Inhabited
 def EntryB.enc (e : EntryB) : Enc :=
   { type := e.typ.toDType, scale := e.scale, ref := e.ref, nbits := e.nbits, afNbits := 0 }
 
-def FLAG_CLASS31 : Nat := 1
-def FLAG_EXPANDED : Nat := 2
-def FLAG_SKIPPED : Nat := 4
-def FLAG_CLASS33 : Nat := 8
-def FLAG_IGNORED : Nat := 16
+/-- the `flags` byte of a `BufrDescriptor` (FLAG_CLASS31 = 1, FLAG_EXPANDED = 2, FLAG_SKIPPED = 4,
+FLAG_CLASS33 = 8, FLAG_IGNORED = 16), one field per bit -/
+structure Flags where
+  class31 : Bool := false
+  expanded : Bool := false
+  skipped : Bool := false
+  class33 : Bool := false
+  ignored : Bool := false
+deriving DecidableEq, Repr, Inhabited
 
+def Flags.toNat (f : Flags) : Nat :=
+  (if f.class31 then 1 else 0) + (if f.expanded then 2 else 0) + (if f.skipped then 4 else 0) +
+  (if f.class33 then 8 else 0) + (if f.ignored then 16 else 0)
+
+/-- bit test on option masks (`OP_*`, `DDO_*`) -/
 def hasFlag (flags f : Nat) : Bool := flags &&& f ≠ 0
 
 /-- `BufrDescriptor`.  `ival` is the integer view of the value (`bufr_value_get_int32`), only
 meaningful when `hasVal`; `-1` is "missing". -/
 structure Node where
   desc : Nat
-  flags : Nat := 0
+  flags : Flags := {}
   enc : Enc := {}
   hasVal : Bool := false
   ival : Int := -1
@@ -50,8 +59,8 @@ structure Node where
   replRank : Nat := 0
 deriving DecidableEq, Repr, Inhabited
 
-def Node.skipped (n : Node) : Bool := hasFlag n.flags FLAG_SKIPPED
-def Node.expanded (n : Node) : Bool := hasFlag n.flags FLAG_EXPANDED
+def Node.skipped (n : Node) : Bool := n.flags.skipped
+def Node.expanded (n : Node) : Bool := n.flags.expanded
 
 def isLocalDescriptor (d : Nat) : Bool := Desc.x d > 47 || (Desc.y d > 191 && Desc.y d ≤ 255)
 def isTableB (d : Nat) : Bool := Desc.f d = 0
